@@ -174,6 +174,13 @@ def shard_small(_arg) -> E.Tally:
             bits = [(b >> i) & 1 for i in range(8)]
             if h.hex_to_flag8(h.hex_from_flag8(bits, lsb), lsb) != bits:
                 t.bad("C04:flag8:flags-not-preserved", f"{bits} lsb={lsb}", {"fn": "flag8", "lsb": lsb, "byte": hx})
+            # a caller may edit the list it was given (read-modify-write of a flag byte): the next decode of that byte must not see it
+            keep = list(fl)
+            fl[0] ^= 1
+            fl.append(9)
+            if h.hex_to_flag8(hx, lsb) != keep:
+                t.bad("C04:flag8:decode-depends-on-earlier-caller", f"{hx} lsb={lsb}: decoded {keep}; after the caller edited its copy the next decode gives {h.hex_to_flag8(hx, lsb)}", {"fn": "flag8", "lsb": lsb, "byte": hx})
+            fl = keep
             if (fl[0] if not lsb else fl[7]) != (b >> 7) & 1 or (fl[7] if not lsb else fl[0]) != b & 1:
                 t.bad("C04:flag8:bit-order", f"{hx} lsb={lsb} -> {fl}", {"fn": "flag8", "lsb": lsb, "byte": hx})
     t.by["flag8"] += 1024
